@@ -119,6 +119,13 @@ def decomposition_protocols():
             Xv, Yv = XY(n="V", sfx="v")
             steps = [("fit", (X, Y), fit_kw), ("transform", (Xv,), {}), ("predict", (Xv,), {}), ("inverse_transform", (arr("T2", "V", "K"),), {}), ("score", (Xv, Yv), {})]
             out.append(Proto(f"KernelPCovR[center={center},{reg}]", "skmatter.decomposition.KernelPCovR", ctor, steps, assume=assume_default, order=[("K", "<=", "N")]))
+    # precomputed kernels: the caller's arrays are used as kernels directly
+    for center in (False, True):
+        K, Y = arr("Ktrain", "N", "N"), arr("Y", "N", "P")
+        steps = [("fit", (K, Y), {}), ("transform", (arr("Ktest", "V", "N"),), {}), ("predict", (arr("Ktest2", "V", "N"),), {})]
+        out.append(Proto(f"KernelPCovR[precomputed kernel,center={center}]", "skmatter.decomposition.KernelPCovR", {"mixing": scalar("alpha", 0, 1, True, True), "n_components": integer("K"), "svd_solver": "full", "center": center, "kernel": "precomputed"}, steps, assume=assume_default, order=[("K", "<=", "N")]))
+    X, Y = XY(y1d=True)
+    out.append(Proto("KernelPCovR[1-D y]", "skmatter.decomposition.KernelPCovR", {"mixing": scalar("alpha", 0, 1, True, True), "n_components": integer("K"), "svd_solver": "full"}, [("fit", (X, Y), {}), ("predict", (arr("Xv", "V", "M"),), {})], assume=assume_default, order=[("K", "<=", "N")]))
     return out
 
 
